@@ -54,6 +54,7 @@ type Run struct {
 	knownHit     map[string]string
 	printedViol  int
 	broken       []string
+	classPrinted map[string]int
 }
 
 type knownFinding struct {
@@ -301,7 +302,12 @@ func (r *Run) Violation(caseIdx int, class string, witness interface{}) {
 		}
 	}
 	r.violations++
-	if r.printedViol >= 10 {
+	r.counters["violation_class:"+class]++
+	if r.classPrinted == nil {
+		r.classPrinted = map[string]int{}
+	}
+	r.classPrinted[class]++
+	if r.printedViol >= 40 || r.classPrinted[class] > 3 {
 		return
 	}
 	r.printedViol++
